@@ -14,9 +14,11 @@ def stmt(name):
 
 old = open(os.path.join(TH, "Props.v")).read()
 hdr = old[:old.index("Theorem C14_well_formed")]
-items = [("C14_well_formed", "all_well_formed"), ("C14_counts", "all_counts"), ("C14_topology_partial", "all_topology"),
+items = [("C14_well_formed", "all_well_formed"), ("C14_counts", "all_counts"), ("C14_topology", "all_topology"),
+         ("C14_vertex_manifold", "all_vertex_manifold"),
          ("C14_tables", "all_tables"), ("C14_table_counts", "all_table_counts"),
-         ("C14_params_honoured_partial", "all_switches"), ("C14_on_surface_partial", "all_on_surface")]
+         ("C14_params_honoured", "all_switches"), ("C14_ring_apex_defect", "ring_apex"), ("C14_ring_defect_clamped", "ring_clamp_range"),
+         ("C14_on_surface", "all_on_surface")]
 out = hdr
 for thm, lem in items:
     out += "Theorem %s%s\nProof. exact %s. Qed.\nPrint Assumptions %s.\n\n" % (thm, stmt(lem), lem, thm)
